@@ -217,7 +217,7 @@ pub fn build(quick: bool) -> PropRun {
         units.push(Box::new(move |acc: &mut Acc| {
             let (v, h, p) = run_stream(&s);
             acc.evals += 1; acc.transitions += s.frames as u64; acc.outcomes.insert(h);
-            if p.is_some() { acc.panics += 1; }
+            if let Some(p) = p.as_ref() { acc.panics += 1; if p.contains("assembly_window") && p.contains("with overflow") { acc.violation(stream_name(&s), viol("C06.receiver-accounting", "C06.receiver-accounting".into(), format!("the receiver's allocation counter over/underflowed: {}", p))); } }
             for x in v { acc.violation(stream_name(&s), x); }
             if s.walk == 0 && s.stride == 33 && s.cadence == 0 && s.flush == 1 { acc.sample(format!("{:?}", s)); }
         }));
